@@ -22,6 +22,23 @@ def infer_via_store(vs, k):
     return shrink_types([type_from_json(type_to_json(get_type(v, k))) for v in vs], k)
 
 
+def _traced(x):
+    return x
+
+
+def infer_via_traces(vs, k):
+    """one call trace per value (argument, return and yield position alike), merged the way stub generation merges the
+    traces of one function; given the traces in the order of vs"""
+    from monkeytype.stubs import shrink_traced_types
+    from monkeytype.tracing import CallTrace
+    traces = []
+    for v in vs:
+        t = get_type(v, k)
+        traces.append(CallTrace(_traced, {"x": t}, t, t))
+    args, ret, yld = shrink_traced_types(traces, k)
+    return args["x"], ret, yld
+
+
 def nontrivial(specs, k):
     shapes = {vals.shape_of(s).split(":")[0] if not s[0] == "lit" else vals.shape_of(s) for s in specs}
     has_dict = any('"dict"' in repr(s).replace("'", '"') for s in specs)
